@@ -262,7 +262,9 @@ def O3(inp, n):
     # observer joins / leaves
     r2 = Node('r2')
     keys0 = set(k.id for k in get(o, 'raftNextIndex'))
+    hb0, nsent0 = get(o, 'newAppendEntriesTime'), len(tr.sent)
     _, e1 = guard(getattr(o, P + 'onReadonlyNodeConnected'), r2)
+    cl['observer_join_leaves_the_heartbeat_schedule_alone'] = Eq(get(o, 'newAppendEntriesTime'), hb0) and all(nd == r2 for nd, _ in tr.sent[nsent0:])
     q1 = so.post_state(o)
     cl['observer_join_adds_only_its_entries'] = e1 is None and set(q1.next) == keys0 | {'r2'} and set(q1.match) == keys0 | {'r2'} and \
         bool(Eq(q1.next['r2'], p.last + 1)) and bool(Eq(q1.match['r2'], 0)) and r2 in o.readonlyNodes and o.isNodeConnected(r2)
@@ -273,7 +275,7 @@ def O3(inp, n):
     return Res(cl, nontrivial=any(p.conn[x.id] for x in p.observers), obs=lambda: dict(conn=p.conn, sent=[(nd.id, len(m.get('entries', []))) for nd, m in tr.sent], exc=show(exc)))
 
 
-@obligation('F2', props=('C20', 'C14'), quick=[dict(N=3, n=2)], thorough=[dict(N=N, n=2) for N in (2, 3, 5)], stubs=_STUBS,
+@obligation('F2', props=('C20', 'C14', 'C03'), quick=[dict(N=3, n=2)], thorough=[dict(N=N, n=2) for N in (2, 3, 5)], stubs=_STUBS,
             bounds='N<=5, any role, any tables; a transport connect or disconnect notification for any voter')
 def F2(inp, N, n):
     """connection notifications are not replies: a connect / disconnect notification changes nothing but the connected set -
